@@ -1377,22 +1377,19 @@ func marshalDate(info TypeInfo, value interface{}) ([]byte, error) {
 		return nil, nil
 	case int64:
 		timestamp = v
-		x := daysSinceEpoch(timestamp) + int64(1<<31)
-		return encInt(int32(x)), nil
+		return encDate(info, timestamp)
 	case time.Time:
 		if v.IsZero() {
 			return []byte{}, nil
 		}
 		timestamp = int64(v.UTC().Unix()*1e3) + int64(v.UTC().Nanosecond()/1e6)
-		x := daysSinceEpoch(timestamp) + int64(1<<31)
-		return encInt(int32(x)), nil
+		return encDate(info, timestamp)
 	case *time.Time:
 		if v.IsZero() {
 			return []byte{}, nil
 		}
 		timestamp = int64(v.UTC().Unix()*1e3) + int64(v.UTC().Nanosecond()/1e6)
-		x := daysSinceEpoch(timestamp) + int64(1<<31)
-		return encInt(int32(x)), nil
+		return encDate(info, timestamp)
 	case string:
 		if v == "" {
 			return []byte{}, nil
@@ -1402,14 +1399,24 @@ func marshalDate(info TypeInfo, value interface{}) ([]byte, error) {
 			return nil, marshalErrorf("can not marshal %T into %s, date layout must be '2006-01-02'", value, info)
 		}
 		timestamp = int64(t.UTC().Unix()*1e3) + int64(t.UTC().Nanosecond()/1e6)
-		x := daysSinceEpoch(timestamp) + int64(1<<31)
-		return encInt(int32(x)), nil
+		return encDate(info, timestamp)
 	}
 
 	if value == nil {
 		return nil, nil
 	}
 	return nil, marshalErrorf("can not marshal %T into %s", value, info)
+}
+
+// encDate writes the day that contains the timestamp (milliseconds since the
+// epoch) as an unsigned number of days centred on 2^31; days that do not fit
+// the 4 bytes of a date are refused.
+func encDate(info TypeInfo, timestamp int64) ([]byte, error) {
+	x := daysSinceEpoch(timestamp) + int64(1<<31)
+	if x < 0 || x > math.MaxUint32 {
+		return nil, marshalErrorf("cannot marshal into %s: date out of range", info)
+	}
+	return encInt(int32(x)), nil
 }
 
 func unmarshalDate(info TypeInfo, data []byte, value interface{}) error {
